@@ -263,12 +263,13 @@ class TextMessageProtocol(HDAP):
         )
 
     def get_payload(self) -> bytes:
+        # option flag with zero-length option data is valid, from_bytes represents it as None
+        option_data: bytes = (self.option_data or b"") if self.has_option else b""
         option_data_prefix: bytes = (
-            len(self.option_data).to_bytes(length=2, byteorder=self.get_endianness())
+            len(option_data).to_bytes(length=2, byteorder=self.get_endianness())
             if self.has_option
             else b""
         )
-        option_data: bytes = self.option_data if self.has_option else b""
         request_id: bytes = self.request_id.to_bytes(
             length=4, byteorder=self.get_endianness()
         )
